@@ -20,6 +20,7 @@
 from __future__ import annotations
 
 import functools
+import operator
 import typing
 import warnings
 
@@ -183,7 +184,8 @@ class MonitoredFocusList(MonitoredList[_T], typing.Generic[_T]):
 
         super().__init__(*args, **kwargs)
 
-        self._focus = focus
+        self._focus = 0
+        self.focus = focus  # validated like every later assignment
         self._focus_modified = lambda ml, indices, new_items: None
 
     def __repr__(self) -> str:
@@ -395,6 +397,7 @@ class MonitoredFocusList(MonitoredList[_T], typing.Generic[_T]):
         if isinstance(y, slice):
             focus = self._adjust_focus_on_contents_modified(y)
         else:
+            y = operator.index(y)  # like list: any object with __index__
             focus = self._adjust_focus_on_contents_modified(slice(y, y + 1 or None))
         super().__delitem__(y)
         self.focus = focus
@@ -438,6 +441,7 @@ class MonitoredFocusList(MonitoredList[_T], typing.Generic[_T]):
             y = list(y)  # any iterable may be assigned to a slice
             focus = self._adjust_focus_on_contents_modified(i, y)
         else:
+            i = operator.index(i)  # like list: any object with __index__
             focus = self._adjust_focus_on_contents_modified(slice(i, i + 1 or None), [y])
         super().__setitem__(i, y)
         self.focus = focus
@@ -457,6 +461,7 @@ class MonitoredFocusList(MonitoredList[_T], typing.Generic[_T]):
         >>> print(ml.focus)
         None
         """
+        n = operator.index(n)  # like list: any object with __index__
         if n > 0:
             focus = self._adjust_focus_on_contents_modified(slice(len(self), len(self)), list(self) * (n - 1))
         else:  # all contents are being removed
@@ -526,6 +531,7 @@ class MonitoredFocusList(MonitoredList[_T], typing.Generic[_T]):
         2
         MonitoredFocusList([0, 1], focus=1)
         """
+        index = operator.index(index)  # like list: any object with __index__
         focus = self._adjust_focus_on_contents_modified(slice(index, index + 1 or None))
         rval = super().pop(index)
         self.focus = focus
@@ -573,7 +579,7 @@ class MonitoredFocusList(MonitoredList[_T], typing.Generic[_T]):
     if hasattr(list, "clear"):
 
         def clear(self) -> None:
-            focus = self._adjust_focus_on_contents_modified(slice(0, 0))
+            focus = self._adjust_focus_on_contents_modified(slice(0, len(self)))
             super().clear()
             self.focus = focus
 
